@@ -4,7 +4,7 @@ from vf import Query, VERIF, REPO
 from common import R_ASSUME
 import C01
 
-OPS = ['TAIL_CALL', 'RET', 'CALLCC', 'RESUMECC', 'LABEL_make_call']
+OPS = ['TAIL_CALL', 'RET', 'CALLCC', 'RESUMECC', 'LABEL_make_call', 'LOCAL_REF', 'LOCAL_SET']
 UNITS = C01.UNITS
 UD = dict(C01.UD, SEXP_MAX_STACK_SIZE=48, KIT_MAX_stack=48, KIT_MAX_vector=12)
 EXC = C01.EXC
@@ -41,6 +41,12 @@ def make_call_queries(tier):
             qs.append(Query(name='make_call[callee with %d fixed parameters%s; 0..3 arguments]' % (na, ', rest parameter' + (' (unused)' if unused else '') if var else ''),
                             harness='C05_calls.c', units=UNITS, unit_defs=UD_CALL, defs={'OP': 7, 'NA': na, 'VARIADIC': var, 'UNUSED_REST': unused, 'CALLEE_KIND': 0, 'DEPTH': 96},
                             unwind=100, remove_bodies=EXC, cap=600, backends=['cadical', 'minisat', 'kissat'], functions=['sexp_apply: make_call (arity, rest list, frame header)']))
+    # compiler index <-> frame layout <-> VM access
+    for na, var, nloc in ((2, 0, 2), (1, 1, 1), (0, 1, 2), (2, 1, 0)):
+        qs.append(Query(name='variable slots[%d parameters%s, %d locals: sexp_param_index vs make_call frame vs LOCAL_REF/LOCAL_SET]' % (na, ' + rest' if var else '', nloc),
+                        harness='C05_calls.c', units=UNITS, unit_defs=UD_CALL, defs={'OP': 8, 'NA': na, 'VARIADIC': var, 'UNUSED_REST': 0, 'CALLEE_KIND': 0, 'NLOC': nloc, 'DEPTH': 96},
+                        unwind=100, remove_bodies=EXC, cap=600, backends=['cadical', 'minisat', 'kissat'],
+                        functions=['sexp_param_index', 'sexp_apply: make_call', 'sexp_apply: case SEXP_OP_LOCAL_REF', 'sexp_apply: case SEXP_OP_LOCAL_SET']))
     for kind, nm in ((1, 'pair'), (2, 'fixnum')):
         qs.append(Query(name='make_call[applying a %s]' % nm, harness='C05_calls.c', units=UNITS, unit_defs=UD_CALL,
                         defs={'OP': 7, 'NA': 1, 'VARIADIC': 0, 'UNUSED_REST': 0, 'CALLEE_KIND': kind, 'DEPTH': 96}, unwind=100, remove_bodies=EXC, cap=600,
@@ -48,7 +54,8 @@ def make_call_queries(tier):
     return qs
 
 
-BOUNDS = {'frames': 'caller frame with 0..2 arguments and 0..2 locals at a symbolic previous fp / return offset; 0..2 new arguments', 'stack': '24 words; SEXP_MAX_STACK_SIZE scaled to 48'}
+BOUNDS = {'make_call': 'callee with 0..2 fixed parameters, rest parameter absent / used / unused; 0..3 actual arguments (free); 96-word stack (no growth); variable-slot queries: 0..2 parameters, optional rest, 0..2 locals',
+          'frames': 'caller frame with 0..2 arguments and 0..2 locals at a symbolic previous fp / return offset; 0..2 new arguments', 'stack': '24 words; SEXP_MAX_STACK_SIZE scaled to 48'}
 ASSUMPTIONS = R_ASSUME + ['constant space for N iterations follows from the one-step frame replacement by induction (paper argument); '
                           'SEXP_MAX_STACK_SIZE is overridden to 48 (scale model of the limit, features.h allows the override)']
 OUTSIDE = ['code generation of tail positions (sexp_generate: which calls become TAIL_CALL) and derived forms (cond/case/and/or/when/unless/do, named let are Scheme macros)',
